@@ -199,6 +199,16 @@ def pairwiseNestedCases (tagp : String) : Array Case := Id.run do
       let s2 := Stmt.mk [Part.ann { sym := Sym.D } true (.leaf (str "must")), comb x "first", comb y "second"]
       let c2 := parseCase s!"{tagp}-pc{k}" "pairwise-nested-combinations" s2
       out := out.push { c2 with note := Json.mkObj [("kf", ("" : Json))] }
+      -- both nested statements hold a component with a combination of its own, followed by
+      -- another component (the coarse classification takes such a statement for a combination
+      -- candidate first and re-classifies it)
+      let inner3 := fun (t : String) => Stmt.mk [Part.ann { sym := Sym.A } true (.leaf (t ++ " actor").toList),
+        Part.ann { sym := Sym.I } true (.comb .OR (.leaf (t ++ " aim one").toList) (.leaf (t ++ " aim two").toList)),
+        Part.ann { sym := Sym.Bdir } true (.leaf (t ++ " object").toList)]
+      if k % 3 = 0 then
+        let s3 := Stmt.mk [Part.ann { sym := Sym.D } true (.leaf (str "must")), Part.nested { sym := x } (inner3 "first"), Part.nested { sym := y } (inner3 "second")]
+        let c3 := parseCase s!"{tagp}-pr{k}" "pairwise-nested-reclassified" s3
+        out := out.push { c3 with note := Json.mkObj [("kf", ((if supported s3 then "" else "C02-regex-shape") : Json))] }
       k := k + 1
   pure out
 
